@@ -428,7 +428,7 @@ def c17_custom(pid, tier, seed, t0):
     agg.counters = {'lock_handovers': tot.get('handovers', 0), 'buffer_full_answers': tot.get('refused_full', 0), 'triggers_accepted': tot.get('accepted', 0), 'events_delivered': tot.get('delivered', 0),
                     'contended_lock_attempts': tot.get('contended_locks', 0), 'holds_entered': tot.get('holds_entered', 0), 'lock_calls': tot.get('lock_calls', 0),
                     'lock_failures_injected_by_timed_mutex': tot.get('lock_failures', 0), 'runs_with_failing_lock': sum(1 for r in runs if timed[r]),
-                    'bystander_checks_parser_state_frozen_under_its_lock': tot.get('frozen_checks', 0), 'variable_read_callbacks_failing': tot.get('var_read_failures', 0)}
+                    'bystander_checks_parser_state_frozen_under_its_lock': tot.get('frozen_checks', 0), 'variable_read_callbacks_failing': tot.get('var_read_failures', 0), 'event_handler_chains_next_data_next': tot.get('event_handler_chains', 0)}
     rule = 'one case = one multi-threaded run (service thread + 1/2/4/8 producer threads x %d triggers each, real pthread mutex, randomised yields between API calls; command traffic incl. holds and command lists, failing variable callbacks; a bystander thread that takes the mutex and checks that the parser object does not change meanwhile; error-checking mutex) under ThreadSanitizer for one queue capacity and seed; non-trivial = the lock changed hands between threads and at least one trigger was refused with BUFFER_FULL; distinct by (build, capacity, producers, seed)' % triggers
     shutil.rmtree(bdir, ignore_errors=True)
     report_and_exit(pid, tier, seed, 'exploration', agg, t0, {'lock_handovers': 1000, 'buffer_full_answers': 100, 'triggers_accepted': 1000, 'lock_failures_injected_by_timed_mutex': 100}, rule,
